@@ -550,6 +550,14 @@ NO_ARD = {"cosine", "poly1", "poly2", "poly3", "const", "sm"}
 STRUCT_BASES = ["rbf", "matern5", "rq", "periodic"]
 
 
+def distinct_sizes(rng, dmax=4):
+    """(B, d, n1, n2) pairwise different, so that no axis can be mistaken for another unnoticed"""
+    B = rng.choice([2, 3])
+    d = rng.choice([x for x in range(1, dmax + 1) if x != B])
+    n1, n2 = rng.sample([x for x in (2, 3, 4, 5, 6) if x not in (B, d)], 2)
+    return B, d, n1, n2
+
+
 def gen_cases(ctx, rng):
     quick = ctx.quick
     reps = 3 if quick else 25
@@ -594,6 +602,22 @@ def gen_cases(ctx, rng):
         for flags in [{}, {"diag": True}, {"lazy": False}]:
             emit(f"{fam}/kernel-batch", sp2, True, xb1, None if flags.get("diag") else xb2, flags, xbatch=2)
             emit(f"{fam}/input-batch", [sp2[0]], False, xb1, None if flags.get("diag") else xb2, flags, xbatch=2)
+        # the same with pairwise different B, d, n1, n2 (no shape coincidence can hide an axis mix-up)
+        for rep in range(reps if quick else 4):
+            B, d, n1, n2 = distinct_sizes(rng)
+            if fam == "sm" and d == 1 and rng.random() < 0.5:
+                B, d, n1, n2 = distinct_sizes(rng)
+            ardflag = fam not in NO_ARD and d > 1 and rng.random() < 0.5
+            spB = [rand_leaf(rng, fam, d, ardflag)]
+            while len(spB) < B:
+                cand = rand_leaf(rng, fam, d, ardflag)
+                if all(len(cand.get(k_, [])) == len(spB[0].get(k_, [])) for k_ in ("w", "Z", "W")):
+                    spB.append(cand)
+            xb1 = [rand_x(rng, n1, d) for _ in range(B)]
+            xb2 = [rand_x(rng, n2, d) for _ in range(B)]
+            for flags in [{}, {"diag": True}]:
+                emit(f"{fam}/kernel-batch/distinct-shapes", spB, True, xb1, None if flags.get("diag") else xb2, flags, xbatch=B)
+                emit(f"{fam}/input-batch/distinct-shapes", [spB[0]], False, xb1, None if flags.get("diag") else xb2, flags, xbatch=B)
 
     # --- composites
     for rep in range(2 * reps):
@@ -659,6 +683,25 @@ def gen_cases(ctx, rng):
                         if flags.get("diag") and x2 is not None:
                             continue
                         emit(f"{name}({base}{'/ard' if ardflag else ''})/{tag}", [sp], False, x1, x2, flags)
+
+    # structure wrappers in batch mode, pairwise different B, d, n1, n2
+    for rep in range(reps):
+        for base in STRUCT_BASES:
+            B, d, n1, n2 = distinct_sizes(rng)
+            while d < 2:
+                B, d, n1, n2 = distinct_sizes(rng)
+            ardflag = rng.random() < 0.5
+            R = rng.randint(1, d)
+            bB = [rand_leaf(rng, base, d, ardflag) for _ in range(B)]
+            sB = [[logu(rng, 0.05, 3.0) for _ in range(R)] for _ in range(B)]
+            xb1 = [rand_x(rng, n1, d) for _ in range(B)]
+            xb2 = [rand_x(rng, n2, d) for _ in range(B)]
+            for name in ("addstruct", "prodstruct", "ng"):
+                spB = [dict({"t": name, "d": d, "k": bB[b]}, **({"s": sB[b]} if name == "ng" else {})) for b in range(B)]
+                for flags in [{}, {"diag": True}]:
+                    x2 = None if flags.get("diag") else xb2
+                    emit(f"{name}({base})/input-batch/distinct-shapes", [spB[0]], False, xb1, x2, flags, xbatch=B)
+                    emit(f"{name}({base})/kernel-batch/distinct-shapes", spB, True, xb1, x2, flags, xbatch=B)
 
     # --- special-input kernels
     for rep in range(2 * reps):
@@ -958,6 +1001,8 @@ def grad_kernel_cases(ctx, rng, q):
                 n1, n2 = rng.randint(1, 4), rng.randint(1, 4)
                 if n1 == n2:
                     n2 = n1 + 1
+                if rep % 2 == 1:      # no coincidence between row counts and d, d+1, 2d+1
+                    n1, n2 = rng.sample([x for x in range(1, 7) if x not in (d, d + 1, 2 * d + 1)], 2)
                 ls = [logu(rng, 0.5, 3.0) for _ in range(d if ardflag else 1)]
                 x1, x2 = rand_x(rng, n1, d, -1.5, 1.5), rand_x(rng, n2, d, -1.5, 1.5)
                 shared = [list(r) for r in x2]
@@ -987,23 +1032,22 @@ def grad_kernel_cases(ctx, rng, q):
     import gpytorch.kernels as GK
     for rep in range(max(1, reps // 2)):
         for kind in ("rbfgrad", "m52grad", "polygrad", "rbfgradgrad"):
-            d = rng.randint(1, 3)
+            B, d, n1, n2 = distinct_sizes(rng, 3)
+            while len({B, d, d + 1, n1, n2}) < 5 and rng.random() < 0.9:
+                B, d, n1, n2 = distinct_sizes(rng, 3)
             ardflag = kind != "polygrad" and d > 1 and rng.random() < 0.5
-            n1, n2 = rng.randint(1, 3), rng.randint(1, 4)
-            if n1 == n2:
-                n2 += 1
-            lsb = [[logu(rng, 0.5, 3.0) for _ in range(d if ardflag else 1)] for _ in range(2)]
-            xb1 = [rand_x(rng, n1, d, -1.5, 1.5) for _ in range(2)]
-            xb2 = [rand_x(rng, n2, d, -1.5, 1.5) for _ in range(2)]
-            p, cb = rng.randint(1, 4), [logu(rng, 0.05, 2.0) for _ in range(2)]
-            bs = torch.Size([2])
+            lsb = [[logu(rng, 0.5, 3.0) for _ in range(d if ardflag else 1)] for _ in range(B)]
+            xb1 = [rand_x(rng, n1, d, -1.5, 1.5) for _ in range(B)]
+            xb2 = [rand_x(rng, n2, d, -1.5, 1.5) for _ in range(B)]
+            p, cb = rng.randint(1, 4), [logu(rng, 0.05, 2.0) for _ in range(B)]
+            bs = torch.Size([B])
             cls = {"rbfgrad": GK.RBFKernelGrad, "m52grad": GK.Matern52KernelGrad, "rbfgradgrad": GK.RBFKernelGradGrad}.get(kind)
             if cls is None:
                 k = GK.PolynomialKernelGrad(power=p, batch_shape=bs).double()
-                k.offset = torch.tensor(cb, dtype=torch.float64).reshape(2, 1)
+                k.offset = torch.tensor(cb, dtype=torch.float64).reshape(B, 1)
             else:
                 k = cls(ard_num_dims=d if ardflag else None, batch_shape=bs).double()
-                k.lengthscale = torch.tensor(lsb, dtype=torch.float64).reshape(2, 1, -1)
+                k.lengthscale = torch.tensor(lsb, dtype=torch.float64).reshape(B, 1, -1)
             for tag, X2 in (("n1!=n2", xb2), ("diag", None)):
                 X1t = torch.tensor(xb1, dtype=torch.float64)
                 try:
@@ -1016,9 +1060,9 @@ def grad_kernel_cases(ctx, rng, q):
                                 got = k(X1t, torch.tensor(X2, dtype=torch.float64)).to_dense().detach().numpy()
                 except Exception as e:
                     got = None
-                    ctx.fail(f"{type(k).__name__}/batch/{tag}/raises", f"{type(k).__name__} batch_shape=[2] d={d}: "
+                    ctx.fail(f"{type(k).__name__}/batch/{tag}/raises", f"{type(k).__name__} batch_shape=[{B}] d={d}: "
                              f"{type(e).__name__}: {str(e)[:160]}", {"kind": kind, "x1": xb1, "x2": X2, "ls": lsb, "p": p, "c": cb})
-                for b in range(2):
+                for b in range(B):
                     if cls is None:
                         head = f"G polygrad {num(k.offset.detach()[b].item())} {p}"
                     else:
@@ -1246,7 +1290,8 @@ def task_kernels(ctx, rng, q):
         nparts = rng.randint(1, 3)
         specs = [rand_leaf(rng, rng.choice(["rbf", "matern5", "rq"]), d, False) for _ in range(nparts)]
         bases = [build([s], False) for s in specs]
-        x1, x2 = rand_x(rng, rng.randint(1, 4), d), rand_x(rng, rng.randint(1, 4), d)
+        na, nb_ = rng.sample([x for x in range(1, 7) if x not in (T, d)], 2)     # T, d, n1, n2 pairwise different
+        x1, x2 = rand_x(rng, na, d), rand_x(rng, nb_, d)
         if nparts == 1:
             mk = K.MultitaskKernel(bases[0], num_tasks=T, rank=rank).double()
             mods = [mk]
@@ -1330,6 +1375,75 @@ def misc_checks(ctx, rng, q):
     return finish
 
 
+def interaction_terms(ctx, rng, q):
+    """`gpytorch.utils.sum_interaction_terms` against Σ_{k=1..min(max_degree, D)} e_k(z) (Lean `esymm`), for every
+    legal `dim` (-3, -4, -5) with the batch dimensions before and/or after the kernel axis, max_degree in
+    {None, 1..D, > D}, and pairwise different D, batch sizes, N, M (no shape coincidence can hide an axis mix-up).
+    Sampled positions go to the Lean driver; the whole tensor is also compared with the defining sum over subsets."""
+    import itertools
+    import numpy as np
+    import torch
+    from gpytorch.utils.sum_interaction_terms import sum_interaction_terms
+    work = []
+    reps = 3 if ctx.quick else 15
+    for rep in range(reps):
+        for dim in (-3, -4, -5):
+            for lead in (False, True):                 # an extra batch axis in front of the kernel axis
+                D = rng.choice([2, 3, 4, 5])
+                sizes = [D] + rng.sample([x for x in (2, 3, 4, 5, 6, 7, 8) if x != D], 5)
+                mid = sizes[1:1 + (-dim - 3)]          # batch axes between the kernel axis and the matrix axes
+                if mid and D > 2 and rng.random() < 0.6:
+                    # make the axis that sits at position -3 SHORTER than the kernel axis (truncation would show)
+                    small = [x for x in range(2, D) if x not in sizes[1:]]
+                    if small:
+                        mid[-1] = rng.choice(small)
+                N, M = sizes[3], sizes[4]
+                shape = ([sizes[5]] if lead else []) + [D] + mid + [N, M]
+                covs = torch.tensor(np.array([rng.uniform(0.05, 1.0) for _ in range(int(np.prod(shape)))]).reshape(shape),
+                                    dtype=torch.float64)
+                axis = len(shape) + dim
+                assert shape[axis] == D
+                zfull = np.moveaxis(covs.numpy(), axis, -1)          # (..., D)
+                for md in [None] + list(range(1, D + 1)) + [D + 1, D + 3]:
+                    desc = {"shape": shape, "dim": dim, "max_degree": md, "covars": covs.tolist()}
+                    ctx.case({"sit": shape, "dim": dim, "md": md, "seed": rep},
+                             sample={"function": "sum_interaction_terms", "shape": shape, "dim": dim, "max_degree": md})
+                    ctx.count(f"sum_interaction_terms_dim{dim}")
+                    try:
+                        got = (sum_interaction_terms(covs, dim=dim) if md is None
+                               else sum_interaction_terms(covs, max_degree=md, dim=dim)).numpy()
+                    except Exception as e:
+                        ctx.fail(f"sum_interaction_terms/dim={dim}/raises",
+                                 f"sum_interaction_terms(shape={shape}, max_degree={md}, dim={dim}): {type(e).__name__}: {str(e)[:160]}", desc)
+                        continue
+                    K_ = D if md is None else min(md, D)
+                    want = np.zeros(zfull.shape[:-1])
+                    for k in range(1, K_ + 1):
+                        for idx in itertools.combinations(range(D), k):
+                            want += np.prod(zfull[..., list(idx)], axis=-1)
+                    key = f"sum_interaction_terms/dim={dim}/max_degree={'None' if md is None else ('<=D' if md <= D else '>D')}"
+                    if got.shape != want.shape:
+                        ctx.fail(key + "/shape", f"output shape {got.shape}, expected {want.shape} (covars {shape}, dim={dim})", desc)
+                        continue
+                    err = np.abs(got - want)
+                    if (err > 1e-10 * np.maximum(1.0, np.abs(want))).any():
+                        i = np.unravel_index(np.argmax(err), err.shape)
+                        ctx.fail(key, f"sum_interaction_terms(covars {shape}, max_degree={md}, dim={dim}) at {tuple(int(x) for x in i)} "
+                                 f"is {got[i]!r}, Σ_(k<={K_}) e_k of the {D} values along dim is {want[i]!r}", desc)
+                        continue
+                    for _ in range(3):                                   # sampled positions against the Lean Spec
+                        i = tuple(rng.randrange(n_) for n_ in want.shape)
+                        h = q.ask(f"NG {vec(zfull[i].tolist())} {vec([1.0] * K_)}")
+                        work.append((h, float(got[i]), key, desc, i))
+
+    def finish():
+        for h, got, key, desc, i in work:
+            e = parse_bits(q[h])[0][0][1]
+            if abs(got - e) > 1e-10 * max(1.0, abs(e)):
+                ctx.fail(key, f"sum_interaction_terms at {i} is {got!r}, Lean Σ e_k is {e!r}", dict(desc, position=list(i)))
+    return finish
+
+
 # ------------------------------------------------------------------------------------------- entry points
 
 def coverage_table(covered):
@@ -1370,7 +1484,8 @@ def correspondence(ctx):
             fd_of_spec(ctx, ctx.rng("fd"), q),
             generated_terms(ctx, ctx.rng("gen"), q),
             task_kernels(ctx, ctx.rng("task"), q),
-            misc_checks(ctx, ctx.rng("misc"), q)]
+            misc_checks(ctx, ctx.rng("misc"), q),
+            interaction_terms(ctx, ctx.rng("interaction"), q)]
     covered |= {"RBFKernelGrad", "Matern52KernelGrad", "PolynomialKernelGrad", "RBFKernelGradGrad",
                 "IndexKernel", "MultitaskKernel", "LCMKernel"}
     q.run()
@@ -1503,9 +1618,12 @@ def replay(ctx, payload):
         _replay_grad(ctx, r)
     elif "call" in c or "covars" in c or "max_degree" in c:
         q = Q()
-        fin = misc_checks(ctx, ctx.rng("misc"), q)
+        fins = [misc_checks(ctx, ctx.rng("misc"), q), interaction_terms(ctx, ctx.rng("interaction"), q)]
         q.run()
-        fin()
+        for f in fins:
+            f()
+        key = payload.get("key")
+        return not any(f["key"] == key for f in ctx.failures[before:]) if key else len(ctx.failures) == before
     else:
         correspondence(ctx)
     return len(ctx.failures) == before
